@@ -331,10 +331,8 @@ func registerMisc(ex *Explorer) {
 	ex.register("(github.com/tendermint/tendermint/types.Tx).Hash", func(fr *frame, args []value) value {
 		b := args[0].([]value)
 		if h, ok := handleOf(b); ok {
-			if h.id == 0 {
-				handleBytes(h)
-			}
-			sum := sha256.Sum256([]byte(fmt.Sprintf("zzverif-handle-%d-%s", h.id, h.kind)))
+			// content-based: equal encodings (same symbols) give equal hashes
+			sum := handleDigest(h)
 			return bytesToValues(sum[:])
 		}
 		bz, ok := concreteBytes(b)
